@@ -376,6 +376,30 @@ fn main() {
                 check_str_input(&sink, &inp, s.len() <= 3);
             });
             sink.count(&format!("text entry points: strings <= {n} over {} symbols", text_alpha.len()), ntexts);
+            // long lists of small items through the text entry points (git words, LS_COLORS fields, SGR parameters in
+            // styled text): lengths around 16, 32, 64, 256, 1024 and 5000
+            {
+                let mut n_inputs = 0u64;
+                for n in [15usize, 16, 17, 31, 32, 33, 34, 63, 64, 65, 255, 256, 257, 1023, 1024, 1025, 5000] {
+                    for item in ["1", "31", "bold", "#abc", "38;5;9", "x", "\u{e9}"] {
+                        for sep in [";", " ", ":"] {
+                            let mut t = vec![item; n].join(sep);
+                            for tail in ["", "0", "x", "256", ";", "red"] {
+                                let l = t.len();
+                                t.push_str(sep);
+                                t.push_str(tail);
+                                check_str_input(&sink, &t, false);
+                                let styled = format!("\x1b[{t}mz");
+                                check_str_input(&sink, &styled, false);
+                                check_bytes_input(&sink, styled.as_bytes());
+                                t.truncate(l);
+                                n_inputs += 3;
+                            }
+                        }
+                    }
+                }
+                sink.count("text and byte entry points: long lists of small items (15..5000 items x 7 items x 3 separators x 6 tails)", n_inputs);
+            }
             colour_sweeps(&sink, thorough);
             // SGR sequences with malformed / truncated extended-colour forms: every sequence of a head code and up to
             // 5 (4 in the quick tier) more fields over {2, 5, 0, 1, 255, empty} joined by ';' or ':' (other checks prune
